@@ -34,7 +34,7 @@ META = {
     "rule": "80-400 input words drawn from phases: plain data, K symbols, SKP at random byte masks, SKP pairs at any alignment, "
             "runs of 1-5 all-SKP words, 0x3C data bytes, optional invalid-word gaps; drained by invalid or all-SKP words",
 }
-TIERS = {"quick": {"runs": 10000, "wall": 70}, "thorough": {"runs": 60000, "wall": 900}}
+TIERS = {"quick": {"runs": 30000, "wall": 70}, "thorough": {"runs": 60000, "wall": 900}}
 
 
 def _sym(rng, ctr):
